@@ -36,6 +36,7 @@ class Bus:
         self.dispatch_serial = 0
         self.counts = {}
         self.in_event = None
+        self.external_depth = 0     # >0 while harness code (playing the user) calls the API from outside events
 
     def attach(self, mon):
         self.monitors.append(mon)
@@ -48,6 +49,19 @@ class Bus:
     def emit(self, name, *a):
         for f in self.table[name]:
             f(*a)
+
+
+class external:
+    """Marks API calls made by the harness in the role of the user, outside any event."""
+
+    def __init__(self, bus):
+        self.bus = bus
+
+    def __enter__(self):
+        self.bus.external_depth += 1
+
+    def __exit__(self, *a):
+        self.bus.external_depth -= 1
 
 
 class use_bus:
